@@ -703,6 +703,7 @@ def run(ctx: core.Ctx) -> None:
             cuts[rel].append(cur.pop(rel))
     # ---- Part A: crash states ---------------------------------------------------------------
     cases = []
+    late_cases = []  # thorough: every remaining prefix length, run AFTER the schedules and source histories with what is left of the budget
     qfull = ["prefix", len(h["gens"][qn]) - 1, len(h["gens"][qn][-1])]
     for name in names:
         gl = h["gens"][name]
@@ -710,8 +711,15 @@ def run(ctx: core.Ctx) -> None:
         # the data cache only comes into being next to a complete quick-info cache (warm start)
         other = {qn: qfull} if name != qn else {}
         for gi in gsel:
-            for ln in lengths_for(gl[gi], ctx.tier, cuts[name][gi] if gi < len(cuts[name]) else []):
+            wc = cuts[name][gi] if gi < len(cuts[name]) else []
+            first = lengths_for(gl[gi], "quick", wc)
+            for ln in first:
                 cases.append({"files": {**other, name: ["prefix", gi, ln]}})
+            if ctx.tier == "thorough":
+                fs = set(first)
+                for ln in lengths_for(gl[gi], "thorough", wc):
+                    if ln not in fs:
+                        late_cases.append({"files": {**other, name: ["prefix", gi, ln]}})
         for spec in (["stale"], ["wrongtype"], ["garbage", 1], ["garbage", 100]) + ((["outdated"],) if name != qn else ()):
             cases.append({"files": {**other, name: spec}})
             cases.append({"files": {**other, name: spec}, "lock": True})
@@ -801,7 +809,8 @@ def run(ctx: core.Ctx) -> None:
     # number of its scheduling points is taken from a run of one process alone on the same start state.
     kplans = [(2, "cold", 1), (2, "valid-quick-only", 1), (2, "truncated", 1)]
     if ctx.tier == "thorough":
-        kplans = [(2, i, 2) for i in ("cold", "nofolder", "valid-quick-only", "empty", "truncated", "stale", "outdated", "valid")] + [(3, "cold", 1), (3, "truncated", 1)]
+        kplans = [(2, i, 2) for i in ("cold", "valid-quick-only", "truncated", "stale")] + [(2, i, 1) for i in ("nofolder", "empty", "outdated", "valid")] + \
+                 [(3, "cold", 1), (3, "truncated", 1)]
     for n, init, bound in kplans:
         if ctx.out_of_budget():
             break
@@ -824,6 +833,16 @@ def run(ctx: core.Ctx) -> None:
             nprocs += res.get("procs", 0)
     if nsrc and not nobs:
         raise core.HarnessError("source-edit family is vacuous: no edit changed the cache-disabled answers")
+    # ---- Part A, second half (thorough): all remaining prefix lengths ---------------------------
+    if late_cases:
+        nlate = 0
+        for case, res in ctx.pool_map(w_crash, late_cases, timeout=120, chunksize=16, check_det=0):
+            if ctx.out_of_budget():
+                break
+            if ctx.absorb(case, res):
+                nlate += 1
+        ctx.cov["crash_states"] = ctx.cov.get("crash_states", 0) + nlate
+        ctx.cov["crash_states_every_length"] = {"done": nlate, "of": len(late_cases), "complete": nlate == len(late_cases)}
     ctx.cov["source_edit_histories"] = {"histories": nsrc, "of": len(sc), "histories_whose_edits_change_the_reference_answers": nobs,
                                         "process_runs": nprocs, "edit_alphabet": SRC_EDITS + ["revert:<edit>", "defaults+sch_mbi"]}
     ctx.count("source_edit_histories", nsrc)
